@@ -1,7 +1,8 @@
 (* C14 — permessage-deflate is negotiated soundly and both ends agree on its parameters.
    Statements only; proofs in Proofs/HandshakeP.v. *)
 From Coq Require Import List NArith Bool.
-From WS Require Import Base.Words Model.Proto Model.Handshake Proofs.HandshakeP.
+From Coq Require Import ZArith.
+From WS Require Import Base.Words Gen.Consts Gen.FrameCode Model.Proto Model.Handshake Proofs.HandshakeP Proofs.GenTieP.
 Import ListNotations.
 
 (* server: compression only if enabled, and only from the FIRST permessage-deflate offer that is acceptable (earlier
@@ -72,3 +73,10 @@ Example C14_nonvacuous :
   select_deflate (offer cmwb7) MTakeover = None /\
   select_deflate (offer (cmwb7 ++ [44;32] ++ good)) MTakeover = Some {| cnct := false; snct := true |}.
 Proof. vm_compute. split; reflexivity. Qed.
+
+(* tie to the source by translation: the offer of a mode is what CompressionMode.opts (compress.go, regenerated into
+   Gen/FrameCode.v on every run) returns for that mode's constant *)
+Theorem C14_mode_opts_is_source : forall m,
+  mode_opts m = {| cnct := fst (gen_mode_opts (mode_code m)); snct := snd (gen_mode_opts (mode_code m)) |}.
+Proof. exact mode_opts_is_source. Qed.
+Print Assumptions C14_mode_opts_is_source.
